@@ -26,6 +26,8 @@ func main() {
 	shard := flag.Int("shard", 0, "shard index")
 	shards := flag.Int("shards", 1, "number of shards")
 	deadline := flag.Float64("deadline", 0, "seconds before the exploration stops (0: none)")
+	bonus := flag.Int("bonus", 0, "further levels beyond the bound explored until the bonus deadline")
+	bonusDeadline := flag.Float64("bonus-deadline", 0, "seconds before the bonus levels stop")
 	validate := flag.Int("validate", 0, "replay every n-th execution twice")
 	replay := flag.String("replay", "", "replay file")
 	list := flag.Bool("list", false, "list the scenarios of the property as JSON")
@@ -96,6 +98,13 @@ func main() {
 		MaxSteps: sc.MaxSteps, ExpectCrash: sc.ExpectCrash, StepLimitFails: sc.StepLimitFails, MaxViolations: 40}
 	if *deadline > 0 {
 		cfg.Deadline = time.Now().Add(time.Duration(*deadline * float64(time.Second)))
+	}
+	if *bonus > 0 && *bonusDeadline > 0 {
+		cfg.Bonus = *bonus
+		cfg.BonusDeadline = time.Now().Add(time.Duration(*bonusDeadline * float64(time.Second)))
+		if !cfg.Deadline.IsZero() && cfg.BonusDeadline.After(cfg.Deadline) {
+			cfg.BonusDeadline = cfg.Deadline
+		}
 	}
 	st := explore.Explore(sc.Body, cfg)
 	vrt.DumpHits(os.Getenv("VERIF_COVDIR"))
